@@ -1,12 +1,46 @@
 (* C02 - correspondence entry point: the model's observation under the harness schedule
    compared with the implementation's, and the property monitor on the implementation's own
-   trace.  Instantiated with the harness node's route functions (Model.rf0 / itype0). *)
+   trace.  Instantiated with the harness node's route functions (Model.rf0 / itype0).
+
+   The harness operations are the model's client operations ([H o]) plus a macro:
+   [HBurst c mid0 tag0 pad nl nf] = the client of c stops reading, pipelines nl requests to the
+   front's own echo and then nf requests to room-1's echo (ids mid0.., tags tag0.., responses
+   padded to ~pad bytes), and only then reads - more than 9999 responses are pending on one
+   connection, its send queue is full and the producer blocks.  For the model this is just
+   nl + nf requests ([expand]); its messages are delivered after the last request instead of
+   after each one (any calm schedule yields the same observation: C02_relayed_unchanged). *)
 From Cell2V Require Import Common.Tac Common.ListX Common.AList C02.Model C02.Spec.
 
-Definition obs := (list (Z * list resp) * list (Z * Z))%type.
-Definition case := (list op * obs)%type.
+Inductive hop :=
+| H (o : op)
+| HBurst (c mid0 tag0 pad nl nf : Z).
 
-Definition model_obs (ops : list op) : obs := observe (run_sync rf0 itype0 ops).
+Fixpoint zseq_from (from : Z) (fuel : nat) : list Z :=
+  match fuel with O => [] | S f => from :: zseq_from (from + 1) f end.
+
+Definition zseq (from count : Z) : list Z := zseq_from from (Z.to_nat count).
+
+Definition expand (h : hop) : list op :=
+  match h with
+  | H o => [o]
+  | HBurst c mid0 tag0 _ nl nf =>
+      map (fun i => OReq c (mid0 + i) (RT 0 MEcho) (tag0 + i)) (zseq 0 nl)
+      ++ map (fun i => OReq c (mid0 + nl + i) (RT 2 MEcho) (tag0 + nl + i)) (zseq 0 nf)
+  end.
+
+Definition ops_of_hops (hs : list hop) : list op := flat_map expand hs.
+
+Definition obs := (list (Z * list resp) * list (Z * Z))%type.
+Definition case := (list hop * obs)%type.
+
+Definition hstep (s : st) (h : hop) : st :=
+  match h with
+  | H o => sync_step rf0 itype0 s o
+  | HBurst _ _ _ _ _ _ =>
+      pass itype0 (pass itype0 (fold_left (op_step rf0 itype0) (expand h) s))
+  end.
+
+Definition model_obs (hs : list hop) : obs := observe (finish itype0 (fold_left hstep hs init)).
 
 Definition conn_obs_eqb (a b : Z * list resp) : bool :=
   Z.eqb (fst a) (fst b) && mset_eqb resp_eqb (snd a) (snd b).
@@ -15,7 +49,7 @@ Definition obs_eqb (a b : obs) : bool :=
   list_eqb conn_obs_eqb (fst a) (fst b) && mset_eqb (pair_eqb Z.eqb Z.eqb) (snd a) (snd b).
 
 Definition agree (c : case) : bool := obs_eqb (model_obs (fst c)) (snd c).
-Definition monitor (c : case) : bool := monitor_obs rf0 itype0 (fst c) (snd c).
+Definition monitor (c : case) : bool := monitor_obs rf0 itype0 (ops_of_hops (fst c)) (snd c).
 
 Definition disagreeing (cs : list case) : list Z := failing agree cs.
 Definition monitor_failing (cs : list case) : list Z := failing monitor cs.
